@@ -1035,36 +1035,36 @@ theorem preds_parent {m : Morph} {r : Nat → Nat} (wf : WfForest m r) (len : Na
     subst this
     exact ⟨rest, rfl⟩
 
-theorem walkBranch_none {m : Morph} {r : Nat → Nat} (wf : WfForest m r) (len : Nat → Rat) {i : Nat}
-    (h : NoBranchAbove m i) : ∀ fuel, walkBranch (getGraph m len) fuel i = none := by
+theorem walkBranchOld_none {m : Morph} {r : Nat → Nat} (wf : WfForest m r) (len : Nat → Rat) {i : Nat}
+    (h : NoBranchAbove m i) : ∀ fuel, walkBranchOld (getGraph m len) fuel i = none := by
   induction h with
   | root hs hp =>
     intro fuel
     have ⟨hsm, hsi⟩ := find_some hs
     cases fuel with
     | zero => rfl
-    | succ k => unfold walkBranch; rw [← hsi, preds_root wf len hsm hp]
+    | succ k => unfold walkBranchOld; rw [← hsi, preds_root wf len hsm hp]
   | up hs hp hone _ ih =>
     intro fuel
     have ⟨hsm, hsi⟩ := find_some hs
     cases fuel with
     | zero => rfl
     | succ k =>
-      unfold walkBranch
+      unfold walkBranchOld
       obtain ⟨rest, hpr⟩ := preds_parent wf len hsm hp
       rw [← hsi, hpr]
       simp only [succs_eq, hone, if_true]
       exact ih k
 
-theorem walkBranch_some {m : Morph} {r : Nat → Nat} (wf : WfForest m r) (len : Nat → Rat) :
+theorem walkBranchOld_some {m : Morph} {r : Nat → Nat} (wf : WfForest m r) (len : Nat → Rat) :
     ∀ (fuel i : Nat), HasBranchAbove m i → r i < fuel →
-      ∃ cur, walkBranch (getGraph m len) fuel i = some cur ∧ Anc m cur i := by
+      ∃ cur, walkBranchOld (getGraph m len) fuel i = some cur ∧ Anc m cur i := by
   intro fuel
   induction fuel with
   | zero => intro i _ h; omega
   | succ k ih =>
     intro i hb hr
-    unfold walkBranch
+    unfold walkBranchOld
     cases hb with
     | here hs hp hne =>
       have ⟨hsm, hsi⟩ := find_some hs
@@ -1081,6 +1081,55 @@ theorem walkBranch_some {m : Morph} {r : Nat → Nat} (wf : WfForest m r) (len :
       simp only [succs_eq, hone, if_true]
       obtain ⟨cur, hc, ha⟩ := ih _ hb' (by omega)
       exact ⟨cur, hc, Anc.step (hsi ▸ hs) hp ha⟩
+
+/-- the walk of the repaired method always ends, at the first segment of the unbranched stretch of `i` -/
+theorem walkBranch_spec {m : Morph} {r : Nat → Nat} (wf : WfForest m r) (len : Nat → Rat) :
+    ∀ (fuel i : Nat), i ∈ ids m → r i < fuel →
+      ∃ cur, walkBranch (getGraph m len) fuel i = some cur ∧ Anc m cur i ∧ StretchTopS m i cur := by
+  intro fuel
+  induction fuel with
+  | zero => intro i _ h; omega
+  | succ k ih =>
+    intro i hi hr
+    obtain ⟨s, hs⟩ := find_of_mem_ids hi
+    have ⟨hsm, hsi⟩ := find_some hs
+    unfold walkBranch
+    cases hpar : s.parent with
+    | none =>
+      rw [← hsi, preds_root wf len hsm hpar]
+      exact ⟨_, rfl, Anc.refl, StretchTopS.root (hsi ▸ hs) hpar⟩
+    | some pf =>
+      obtain ⟨p, f⟩ := pf
+      obtain ⟨rest, hpr⟩ := preds_parent wf len hsm hpar
+      rw [← hsi, hpr]
+      simp only [succs_eq]
+      split
+      · next hone =>
+        have hpm := wf.parent_mem s hsm p f hpar
+        have hrk := wf.rank s hsm p f hpar
+        rw [hsi] at hrk
+        obtain ⟨cur, hc, ha, ht⟩ := ih p hpm (by omega)
+        exact ⟨cur, hc, Anc.step (hsi ▸ hs) hpar ha, StretchTopS.up (hsi ▸ hs) hpar hone ht⟩
+      · next hne => exact ⟨_, rfl, Anc.refl, StretchTopS.branch (hsi ▸ hs) hpar hne⟩
+
+/-- where the old walk returned, the repaired walk returns the same segment (any graph) -/
+theorem walkBranch_of_old (g : Graph) : ∀ (fuel i cur : Nat),
+    walkBranchOld g fuel i = some cur → walkBranch g fuel i = some cur := by
+  intro fuel
+  induction fuel with
+  | zero => intro i cur h; cases h
+  | succ k ih =>
+    intro i cur h
+    unfold walkBranchOld at h
+    unfold walkBranch
+    cases hp : preds g i with
+    | nil => rw [hp] at h; cases h
+    | cons par rest =>
+      rw [hp] at h
+      simp only at h ⊢
+      split
+      · next h1 => rw [if_pos h1] at h; exact ih _ _ h
+      · next h1 => rw [if_neg h1] at h; exact h
 
 theorem distUp_anc {m : Morph} {r : Nat → Nat} (wf : WfForest m r) (len : Nat → Rat) (a : Nat) :
     ∀ (fuel i : Nat), Anc m a i → r i < fuel → ∃ x, distUp (graphEdges m len) a fuel i = some x := by
